@@ -192,9 +192,9 @@ BENIGN_WORDS = ("alpha beta gamma delta lorem ipsum dolor sit amet hello world c
                 "42 3rd 1 it's (laughs) MAN: rock&roll a<b x>y café ♪ naïve 100% [door] ... -- ¿qué? "
                 "\"quoted\" 'single' 😀 a&amp;b &lt; tab\there C:\\dir 5/6 #1 @home = "
                 "… œuvre €5 wait… ½ ™ ñ ¡hola! abcdefghijklmnopqrstuvwxyz ABCDEFGHIJKLMNOPQRSTUVWXYZ012345 "
-                "]]> <![CDATA[ <!-- İstanbul ß ٣ ² 007 - {} {1} | \\N").split(" ")
+                "]]> <![CDATA[ <!-- İstanbul ß ٣ ² 007 - {} {1} \\N").split(" ")
 # deliberately absent: other formats' markers ("-->", "WEBVTT", "<sami", "</tt>", "{1}{2}", the Scenarist header) as the
-# property says, and characters that str.splitlines() treats as line boundaries (VT, FF, FS-RS, NEL, LS, PS): how written
+# property says, "|" (MicroDVD's line separator: a cue made of nothing else is an empty cue - cue structure is C03's subject), and characters that str.splitlines() treats as line boundaries (VT, FF, FS-RS, NEL, LS, PS): how written
 # text survives a parser is C03's subject
 
 
@@ -493,7 +493,7 @@ def _run(seed, tier, a, t0, evidence_path):
     ZP = zp
     workers = a.workers
     C = corpus()
-    n_pipe = a.histories or (1600 if quick else 16000)
+    n_pipe = a.histories or (1600 if quick else 40000)
     budget = a.budget or (60 if quick else 900)
     # ---- stage 1: fault-free pipelines (also the source of stored writer outputs)
     pipelines = []
@@ -586,7 +586,7 @@ def _run(seed, tier, a, t0, evidence_path):
         # (b) seeded: stale tail / misdirected write over ordered pairs, corruption from the marker alphabet
         pairs = []
         pool_names = allnames
-        n_pairs = 5000 if quick else 40000
+        n_pairs = 5000 if quick else 100000
         for _ in range(n_pairs):
             x, y = rng.choice(pool_names), rng.choice(pool_names)
             pairs.append((x, y))
@@ -603,7 +603,7 @@ def _run(seed, tier, a, t0, evidence_path):
                 fs.append(["misdirected_concat", x, y, rng.choice(["", "\n", "\n\n"])])
                 fs.append(["lost_write", x, y])
             jobs.append({"docs": d, "faults": fs})
-        n_corrupt = 800000 if quick else 6000000
+        n_corrupt = 800000 if quick else 20000000
         per = 2000
         for k in range(0, n_corrupt, per):
             d = {}
